@@ -680,8 +680,9 @@ func Input(l *InputSharedVars, g *GlobalVarsMain, hPath *HFilePath, driConfig *C
 					}
 
 					for i := 1; i <= NRTIL; i++ {
-						if g.EINTE[i+1] == g.EINTE[i] {
-							g.EINTE[i+1] = g.EINTE[i+1] + 1
+						// the second of two tillages of one day moves to the next day; a following event must stay behind it
+						if i < NRTIL && g.EINTE[i+1] <= g.EINTE[i] {
+							g.EINTE[i+1] = g.EINTE[i] + 1
 						}
 					}
 				}
@@ -713,8 +714,9 @@ func Input(l *InputSharedVars, g *GlobalVarsMain, hPath *HFilePath, driConfig *C
 					}
 					for i := 1; i <= NDu; i++ {
 						index := i - 1
-						if g.ZTDG[index+1] == g.ZTDG[index] {
-							g.ZTDG[index+1] = g.ZTDG[index+1] + 1
+						// the second of two fertilisations of one day moves to the next day; a following event must stay behind it
+						if index+1 < NDu && g.ZTDG[index+1] <= g.ZTDG[index] {
+							g.ZTDG[index+1] = g.ZTDG[index] + 1
 						}
 					}
 					for i := 1; i < NDu; i++ {
